@@ -480,8 +480,16 @@ namespace occa {
       case primitiveType::uint32_ : return primitive(a.to<uint32_t>() == b.to<uint32_t>());
       case primitiveType::int64_  : return primitive(a.to<int64_t>()  == b.to<int64_t>());
       case primitiveType::uint64_ : return primitive(a.to<uint64_t>() == b.to<uint64_t>());
-      case primitiveType::float_  : return primitive(areBitwiseEqual(a.value.float_, b.value.float_));
-      case primitiveType::double_ : return primitive(areBitwiseEqual(a.value.double_, b.value.double_));
+      // Convert both operands first (one of them may be an integer) and compare
+      // by value: 0.0 == -0.0 holds and NaN == NaN does not
+      case primitiveType::float_  : {
+        const float x = a.to<float>(), y = b.to<float>();
+        return primitive((x <= y) && (x >= y));
+      }
+      case primitiveType::double_ : {
+        const double x = a.to<double>(), y = b.to<double>();
+        return primitive((x <= y) && (x >= y));
+      }
       default: ;
     }
     return primitive();
@@ -506,8 +514,14 @@ namespace occa {
       case primitiveType::uint32_ : return primitive(a.to<uint32_t>() != b.to<uint32_t>());
       case primitiveType::int64_  : return primitive(a.to<int64_t>()  != b.to<int64_t>());
       case primitiveType::uint64_ : return primitive(a.to<uint64_t>() != b.to<uint64_t>());
-      case primitiveType::float_  : return primitive(!areBitwiseEqual(a.value.float_, b.value.float_));
-      case primitiveType::double_ : return primitive(!areBitwiseEqual(a.value.double_, b.value.double_));
+      case primitiveType::float_  : {
+        const float x = a.to<float>(), y = b.to<float>();
+        return primitive(!((x <= y) && (x >= y)));
+      }
+      case primitiveType::double_ : {
+        const double x = a.to<double>(), y = b.to<double>();
+        return primitive(!((x <= y) && (x >= y)));
+      }
       default: ;
     }
     return primitive();
